@@ -44,6 +44,10 @@ SPECS_NS = [{'kind': 'numeric'}, {'kind': 'string'}]
 # nominal attributes of ONE file that are related: same level set in another order, equal level lists, sub-/superset, disjoint
 NOM_RELATED = [['a', 'b'], ['b', 'a'], ['a', 'b', 'c'], ['c', 'b', 'a'], ['a'], ['b', 'c']]
 SPECS_NOM = [{'kind': 'nominal', 'levels': l} for l in NOM_RELATED]
+# nominal declarations that contain the level 0 (coba prepends its own '0' to sparse nominals) or repeat a level (not valid ARFF)
+NOM_ZERO = [['0', '1'], ['1', '0'], ['0', 'a'], ['b', '0', 'a'], ['a', 'b', 'a'], ['b', 'a', 'b']]
+SPECS_ZERO = [{'kind': 'nominal', 'levels': l} for l in NOM_ZERO]
+SPECS_ZERO_OTHERS = [{'kind': 'numeric'}, {'kind': 'string'}, {'kind': 'nominal', 'levels': ['a', 'b']}]
 CSV_FULL = ['a', '1', '2.5', '-3', 'a b', 'a,b', "it's", 'say "x"', 'back\\slash', '%', '?', '{x}', 'é', None]
 CSV_SMALL = ['a', '1', 'a,b', 'say "x"', "it's", 'a b', None]
 SVM_LABELS = [['1'], ['0'], ['-1'], ['2.5'], ['1', '3'], ['a']]
@@ -58,7 +62,7 @@ def cell_alpha(spec, alpha, sparse):
     if k == 'numeric': return (NUM_TINY + (['0'] if sparse else [])) if alpha.startswith('tiny') else NUM_SPARSE if sparse else NUM
     if k == 'string': return {'full': STR_FULL, 'small': STR_SMALL, 'tiny': STR_TINY, 'tiny5': STR_TINY5}[alpha]
     if k == 'date': return ['2020-01-02' if ' ' not in spec['datefmt'] else '2020-01-02 10:30', None]
-    return list(spec['levels']) + [None]
+    return list(dict.fromkeys(spec['levels'])) + [None]
 
 
 def cclass(kind, x):
@@ -129,6 +133,7 @@ class C12(Check):
         'numeric cells compare by float equality, int or float type not constrained; date cells are compared as strings (coba does not parse dates)',
         'LibSVM/Manik rows without a label are dropped by coba by (pinned) design and are outside the alphabet; labels are compared as the written strings',
         'CSV cells are compared as strings (CsvReader is untyped); missing = empty field; cells with leading/trailing blanks or embedded line breaks are outside the alphabet',
+        'a nominal declaration that repeats a level is not valid ARFF: it may be rejected; if accepted the cells must carry a duplicate-free list of exactly the declared levels (order not constrained) with matching as_int/as_onehot',
         'rows are materialised in file order (lazy access order is C13)',
     ]
     TECHNIQUE = 'bounded-exhaustive enumeration of texts x encodings x chunk sizes and of tables x dialect variants on the real readers/sources vs. plain-Python reference writers'
@@ -191,6 +196,11 @@ class C12(Check):
                     for m in ([{'kind': 'numeric'}, {'kind': 'string'}] if mid else [None]):
                         specs = cs if m is None else (cs[0], m) + tuple(cs[1:])
                         yield from self._arff_groups(sparse, [], specs, nrows, 'small')
+        # ---- ARFF nominal declarations holding the level 0 / repeating a level, in every column position (first, middle, last = label)
+        for sparse in (False, True):
+            for nrows, ncols in ((1, 1), (2, 1), (1, 2), (2, 2), (1, 3)) + (() if q else ((2, 3),)):
+                for cs in itertools.product(SPECS_ZERO + SPECS_ZERO_OTHERS, repeat=ncols):
+                    if any(c in SPECS_ZERO for c in cs): yield from self._arff_groups(sparse, [], cs, nrows, 'small')
         # ---- ARFF column names (one awkward name at a time, then pairs)
         for sparse in (False, True):
             for name in NAMES:
@@ -587,7 +597,7 @@ class C12(Check):
         cells, levels = set(), set()
         for j, c in enumerate(d['cols']):
             if F.vclass(c['name']) != 'plain' or c['name'] == 'numeric': parts.append('name:' + ('keyword' if c['name'] == 'numeric' else F.vclass(c['name'])))
-            if c['kind'] == 'nominal': levels |= {F.vclass(l) if F.vclass(l) != 'plain' else 'numeric-looking' for l in c['levels'] if F.vclass(l) != 'plain' or not l.isalpha()}
+            if c['kind'] == 'nominal': levels |= {F.vclass(l) if F.vclass(l) != 'plain' else 'numeric-looking' for l in c['levels'] if (F.vclass(l) != 'plain' or not l.isalpha()) and l != '0'}
             if c['kind'] == 'date' and ' ' in c['datefmt']: parts.append('datefmt:space')
             for r in d['rows']:
                 cc = cclass(c['kind'], r[j])
@@ -595,6 +605,8 @@ class C12(Check):
         parts += sorted(cells) + sorted('level:' + l for l in levels - cells)
         noms = [c['levels'] for c in d['cols'] if c['kind'] == 'nominal']
         rel = set()
+        if any('0' in a for a in noms): rel.add('nominal declares the level 0')
+        if any(len(set(a)) != len(a) for a in noms): rel.add('nominal declaration repeats a level')
         for i, a in enumerate(noms):
             for b in noms[i + 1:]:
                 if a == b: rel.add('nominals with equal level lists')
@@ -605,17 +617,21 @@ class C12(Check):
         if len(d['rows']) == 0: parts.append('no rows')
         return ' + '.join(parts) or 'any table'
 
+    @staticmethod
+    def _invalid_decl(d):
+        return any(c['kind'] == 'nominal' and len(set(c['levels'])) != len(c['levels']) for c in d['cols'])
+
     def _arff_one(self, d, acc, res=None):
         """Evaluate one table; on failure minimise and report.  Returns True when it was a violation."""
         if res is None: res = self._arff_eval(d)
         fmt = 'arff-sparse' if d['sparse'] else 'arff-dense'
         if res is None:
             acc.outcome(fmt + ' same table'); return False
-        if res[0] == 'reject' and d['v']:
+        if res[0] == 'reject' and (d['v'] or self._invalid_decl(d)):
             acc.outcome(fmt + ' variant rejected:' + res[1]); acc.count('variant_rejected'); return False
         sig = res[:2]
         small = shrink(d, self._arff_candidates, lambda c: (self._arff_eval(c) or (None, None))[:2], sig)
-        if sig[0] == 'reject' and small['v']:       # minimisation must not turn a common-dialect rejection into an allowed one
+        if sig[0] == 'reject' and (small['v'] or self._invalid_decl(small)):       # minimisation must not turn a common-dialect rejection into an allowed one
             small = d
         what = self._arff_eval(small)[2]
         mode = ('rejects common dialect: ' + sig[1]) if sig[0] == 'reject' else sig[1]
@@ -643,7 +659,7 @@ class C12(Check):
             res = self._arff_eval(d)
             if res is None:
                 acc.outcome(('arff-sparse' if sparse else 'arff-dense') + ' same table'); continue
-            if res[0] == 'reject' and case['v']:
+            if res[0] == 'reject' and (case['v'] or self._invalid_decl(d)):
                 self._arff_one(d, acc, res); continue
             # identical failures inside one group (same mode, same offending cell classes) are minimised once
             fp = (res[:2], tuple(sorted({(j, cclass(cols[j]['kind'], r[j])) for r in rows for j in range(nc)})))
